@@ -13,6 +13,22 @@ fn any_keys() -> (ZipCryptoKeys, RefPk) {
         RefPk { k0, k1, k2 },
     )
 }
+/// the key state before any password byte (APPNOTE 6.1.5 constants, typed from the specification)
+pub(crate) fn initial_keys() -> ZipCryptoKeys {
+    ZipCryptoKeys { key_0: Wrapping(0x1234_5678), key_1: Wrapping(0x2345_6789), key_2: Wrapping(0x3456_7890) }
+}
+/// decrypted 12th byte of an encryption header under the empty password (crate's own per-byte
+/// step, which c15_decrypt_step_matches_appnote proves equal to APPNOTE for every key state)
+pub(crate) fn last_header_byte_from_initial_keys(hdr: &[u8; 12]) -> u8 {
+    let mut o = initial_keys();
+    let mut last = 0u8;
+    let mut i = 0;
+    while i < 12 {
+        last = o.decrypt_byte(hdr[i]);
+        i += 1;
+    }
+    last
+}
 fn same(k: &ZipCryptoKeys, r: &RefPk) -> bool {
     k.key_0.0 == r.k0 && k.key_1.0 == r.k1 && k.key_2.0 == r.k2
 }
